@@ -3,6 +3,7 @@ package main
 import (
 	"fmt"
 	"go/token"
+	"go/types"
 
 	"golang.org/x/tools/go/ssa"
 )
@@ -40,7 +41,7 @@ func checkPiecewiseInterpolant(p *Program, r *Report) {
 			continue
 		}
 		h := c.Common().StaticCallee()
-		if h == nil || fnPkg(h) != fnPkg(fn) || h.Signature.Results().Len() != 2 {
+		if h == nil || fnPkg(h) != fnPkg(fn) || !twoIntResults(h) {
 			continue
 		}
 		for _, ref := range refs(call) {
@@ -57,42 +58,43 @@ func checkPiecewiseInterpolant(p *Program, r *Report) {
 		r.Unsupported("R18.5", key+": the two bracket positions are not the results of one helper call")
 		return
 	}
-	eff := nil2eff(p)
 	names := map[ssa.Value]string{xPrm: "x"}
-	for _, c := range callsIn(fn) {
-		call, ok := c.(*ssa.Call)
-		nm := callName(c.Common())
-		if !ok || nm != "Get" && nm != "Get1" {
-			continue
+	unknownRead := ""
+	eachInstr(fn, func(_ *ssa.BasicBlock, _ int, ins ssa.Instruction) {
+		v, isVal := ins.(ssa.Value)
+		if !isVal {
+			return
+		}
+		switch ins.(type) {
+		case *ssa.Call, *ssa.Extract:
+		default:
+			return
+		}
+		tblV, pos, ok := tableRead(p, v, 0)
+		if !ok {
+			return
 		}
 		var tbl string
-		switch origin1(recvOf(c.Common())) {
+		switch tblV {
 		case ssa.Value(xsPrm):
 			tbl = "x"
 		case ssa.Value(ysPrm):
 			tbl = "y"
 		default:
-			continue
-		}
-		a := callArgs(c.Common())[0]
-		var at ssa.Value = a
-		if isIntVec(a.Type()) {
-			vals, _, unk := vecElemAt(eff, origin1OrSelf(a), 0, c)
-			if unk != "" || len(vals) != 1 {
-				r.Unsupported("R18.5", key+": the position of a table read is not determined")
-				return
-			}
-			at = vals[0]
-		}
-		switch origin1OrSelf(at) {
-		case lo:
-			names[call] = tbl + "0"
-		case hi:
-			names[call] = tbl + "1"
-		default:
-			r.Unsupported("R18.5", key+": a table is read at a position that is not one of the two bracket positions")
 			return
 		}
+		switch origin1OrSelf(pos) {
+		case lo:
+			names[v] = tbl + "0"
+		case hi:
+			names[v] = tbl + "1"
+		default:
+			unknownRead = "a table is read at a position that is not one of the two bracket positions"
+		}
+	})
+	if unknownRead != "" {
+		r.Unsupported("R18.5", key+": "+unknownRead)
+		return
 	}
 	// entry → return paths
 	var paths [][]*ssa.BasicBlock
@@ -178,4 +180,90 @@ func checkPiecewiseInterpolant(p *Program, r *Report) {
 		}
 	}
 	r.Floor("R18.5", "error-free paths through Piecewise", n, 1)
+}
+
+func twoIntResults(h *ssa.Function) bool {
+	rs := h.Signature.Results()
+	if rs.Len() != 2 {
+		return false
+	}
+	for i := 0; i < 2; i++ {
+		b, ok := rs.At(i).Type().Underlying().(*types.Basic)
+		if !ok || b.Info()&types.IsInteger == 0 {
+			return false
+		}
+	}
+	return true
+}
+
+// tableRead: v is the element of an array at one position — x.Get(idx) / x.Get1(i) itself, or the result of a module
+// helper that does nothing else with its array and position parameters (`valueAt(vals, i)`,
+// `v0, v1 := segment(vals, i, j)`). Returns the array and the position in the caller's terms.
+func tableRead(p *Program, v ssa.Value, depth int) (tbl, pos ssa.Value, ok bool) {
+	if depth > 3 {
+		return nil, nil, false
+	}
+	var call *ssa.Call
+	ri := 0
+	switch x := origin1OrSelf(v).(type) {
+	case *ssa.Call:
+		call = x
+	case *ssa.Extract:
+		call, _ = x.Tuple.(*ssa.Call)
+		ri = x.Index
+	}
+	if call == nil {
+		return nil, nil, false
+	}
+	if nm := callName(call.Common()); (nm == "Get" || nm == "Get1") && recvOf(call.Common()) != nil && isNDType(recvOf(call.Common()).Type()) {
+		a := callArgs(call.Common())[0]
+		if isIntVec(a.Type()) {
+			vals, _, unk := vecElemAt(nil2eff(p), origin1OrSelf(a), 0, call)
+			if unk != "" || len(vals) != 1 {
+				return nil, nil, false
+			}
+			a = vals[0]
+		}
+		return origin1OrSelf(stripConv(recvOf(call.Common()))), a, true
+	}
+	h := call.Common().StaticCallee()
+	if h == nil || h.Blocks == nil || !InModule(h) || call.Common().IsInvoke() || len(h.Params) != len(call.Common().Args) {
+		return nil, nil, false
+	}
+	if _, isExtract := origin1OrSelf(v).(*ssa.Extract); !isExtract && h.Signature.Results().Len() != 1 {
+		return nil, nil, false
+	}
+	for _, ret := range returnsOf(h) {
+		if ri >= len(ret.Results) {
+			return nil, nil, false
+		}
+		t, q, ok := tableRead(p, ret.Results[ri], depth+1)
+		if !ok {
+			return nil, nil, false
+		}
+		tp, isP := origin1OrSelf(t).(*ssa.Parameter)
+		if !isP || tp.Parent() != h {
+			return nil, nil, false
+		}
+		var ta, qa ssa.Value
+		for i, prm := range h.Params {
+			if prm == tp {
+				ta = call.Common().Args[i]
+			}
+			if qp, isQ := origin1OrSelf(q).(*ssa.Parameter); isQ && qp == prm {
+				qa = call.Common().Args[i]
+			}
+		}
+		if _, isC := constInt(origin1OrSelf(q)); isC {
+			qa = origin1OrSelf(q)
+		}
+		if ta == nil || qa == nil {
+			return nil, nil, false
+		}
+		if tbl != nil && (origin1OrSelf(stripConv(ta)) != tbl || origin1OrSelf(qa) != origin1OrSelf(pos)) {
+			return nil, nil, false
+		}
+		tbl, pos = origin1OrSelf(stripConv(ta)), qa
+	}
+	return tbl, pos, tbl != nil
 }
